@@ -38,7 +38,8 @@ let show_glob removed s =
 
 let ledger removed np s =
   let rs = List.init np (fun c -> show_row s.blocks removed s.rows c) in
-  String.concat " " rs ^ " " ^ show_glob removed s
+  (* DQ: ConnectionList::m_disconnectQueue size (the torrent object is gone after a remove) *)
+  String.concat " " rs ^ " " ^ (if removed then "" else Printf.sprintf "DQ%d " (List.length s.dqueue)) ^ show_glob removed s
 
 let nat c = nat_of_int c
 
@@ -89,6 +90,8 @@ let ops_of_token np tok : op list =
   | 'A' -> if tok = "A:ptick" then PexTick :: List.init np (fun c -> PexEnable (nat c))
            else if tok = "A:max:1" then [SetMax (z_of_int 1)]
            else if tok = "A:sockmax" then [SockLimit true]
+           else if tok = "A:dfire" then [DiscFire]
+           else if List.length f = 2 && List.nth f 1 = "ddis" then [DiscDelay (nat (peer_of hd))]
            else if List.length f = 2 && List.nth f 1 = "snub" then [Snub (nat (peer_of hd))]
            else if List.length f = 2 && List.nth f 1 = "unsnub" then [Unsnub (nat (peer_of hd))]
            else if String.length tok > 9 && String.sub tok 0 9 = "A:maxpex:" then
